@@ -163,26 +163,28 @@ func (nd *ndArrayType) MustReshape(newShape []int) NDArrayType {
 	return result
 }
 
-func (nd *ndArrayType) Get1(loc int) ArrayType {
-	var idx []int
-
+// index1 is the full index of position loc of a series: along the only axis of a
+// 1-D array, or along the first axis longer than one (so that a 1xN view is a series too)
+func (nd *ndArrayType) index1(loc int) []int {
 	if len(nd.Dims) == 1 {
-		idx = []int{loc}
-	} else {
-		idx = nd.NewIndex(0)
-		for i := 0; i < len(nd.Dims); i++ {
-			if nd.Dims[i] > 1 {
-				idx[i] = loc
-				break
-			}
-		}
-		//		fmt.Println("nDims>1",idx,nd.Dims,loc)
+		return []int{loc}
 	}
-	return nd.Get(idx)
+	idx := nd.NewIndex(0)
+	for i := 0; i < len(nd.Dims); i++ {
+		if nd.Dims[i] > 1 {
+			idx[i] = loc
+			break
+		}
+	}
+	return idx
+}
+
+func (nd *ndArrayType) Get1(loc int) ArrayType {
+	return nd.Get(nd.index1(loc))
 }
 
 func (nd *ndArrayType) Set1(loc int, val ArrayType) {
-	nd.Set([]int{loc}, val)
+	nd.Set(nd.index1(loc), val)
 }
 
 func (nd *ndArrayType) Apply1(loc int, step int, vals []ArrayType) {
